@@ -5,6 +5,7 @@ TemperatureArray, TemperatureFile and Guillot2010 classes driven through
 `initialize_profile(planet, nlayers, pressure)` / `.profile`, plus the property's own predicates evaluated on the
 real code for every in-domain case."""
 import os
+import math
 import shutil
 import tempfile
 import numpy as np
@@ -259,6 +260,12 @@ def gen_npoint(rng, bad=False):
         temps = [float(pool[int(rng.integers(0, 2))]) for _ in range(k + 2)]
     else:
         temps = [float(x) for x in rng.uniform(50, 4000, size=k + 2)]
+    # quota: a smoothing window that spans the WHOLE profile (100 percent) over control temperatures that are equal or
+    # within one percent of each other - the narrowest range the smoothed profile has to stay inside
+    whole = bool(rng.random() < 0.05)
+    if whole:
+        t0 = float(rng.uniform(100, 3000))
+        temps = [t0] * (k + 2) if rng.random() < 0.4 else [float(t0 * (1 + rng.uniform(-0.01, 0.01))) for _ in range(k + 2)]
     limit = 9999999
     if rng.random() < 0.25:
         limit = float(10 ** rng.uniform(1.5, 4))
@@ -275,9 +282,17 @@ def gen_npoint(rng, bad=False):
             allp[1] = allp[0]
         else:
             p_surf = float(10 ** (b - 1)) if rng.random() < 0.5 else 0.0
-    return dict(kind='npoint', pressure=ps, planet=gen_planet(rng), T_surface=temps[0], T_top=temps[-1],
-                P_surface=p_surf, P_top=p_top, temperature_points=temps[1:-1], pressure_points=p_points,
-                smoothing_window=gen_window(rng), limit_slope=limit)
+    c = dict(kind='npoint', pressure=ps, planet=gen_planet(rng), T_surface=temps[0], T_top=temps[-1],
+             P_surface=p_surf, P_top=p_top, temperature_points=temps[1:-1], pressure_points=p_points,
+             smoothing_window=gen_window(rng), limit_slope=limit)
+    if whole:
+        c['smoothing_window'] = 100
+        c['sub'] = 'window-whole-profile'
+    if k and rng.random() < 0.35:
+        # quota: the interior nodes held as numpy arrays (what a caller computing its nodes passes, and what a profile
+        # reloaded from a stored output hands to the constructor) instead of python lists
+        c['nodes_as'] = 'ndarray'
+    return c
 
 
 def gen_rodgers(rng):
@@ -360,6 +375,16 @@ def gen_guillot(rng, bad=False):
         if rng.random() < 0.1:
             prm['alpha'] = float(rng.choice([0.0, 1.0]))
         sub = 'documented-bounds'
+        if rng.random() < 0.3:
+            # quota: BOTH optical-to-infrared opacity ratios tiny (1e-10..1e-6, different or - one case in four - equal),
+            # strong infrared opacity: an optically thick column where the two channels still differ (documented bounds)
+            kir = float(10 ** rng.uniform(-1.5, 0))
+            lo = max(-10.0, -10.0 - math.log10(kir)) + 1e-9
+            hi = float(rng.choice([-8.0, -6.0]))
+            g1 = float(10 ** rng.uniform(lo, max(hi, lo)))
+            g2 = g1 if rng.random() < 0.25 else float(10 ** rng.uniform(lo, max(hi, lo)))
+            prm.update(kappa_irr=kir, kappa_v1=max(kir * g1, 1e-10), kappa_v2=max(kir * g2, 1e-10))
+            sub = 'documented-bounds-tiny-gammas'
     else:
         k = float(10 ** rng.uniform(-6, 2))
         prm = dict(T_irr=float(rng.uniform(0, 5000)), kappa_irr=k,
@@ -435,9 +460,10 @@ def run_real(c, P, workdir=None, reuse=None):
         elif kind == 'iso':
             tp = Isothermal(T=c['T'])
         elif kind == 'npoint':
+            as_nodes = (lambda v: np.array(v, dtype=float)) if c.get('nodes_as') == 'ndarray' else list
             tp = NPoint(T_surface=c['T_surface'], T_top=c['T_top'], P_surface=c['P_surface'], P_top=c['P_top'],
-                        temperature_points=list(c['temperature_points']),
-                        pressure_points=list(c['pressure_points']),
+                        temperature_points=as_nodes(c['temperature_points']),
+                        pressure_points=as_nodes(c['pressure_points']),
                         smoothing_window=c['smoothing_window'], limit_slope=c['limit_slope'])
         elif kind == 'rodgers':
             cov = None if c['covariance'] is None else np.asarray(c['covariance'], float)
@@ -573,6 +599,13 @@ def guillot_closed_form(P, g, q):
         prof = t4 ** 0.25
     gmin = min(abs(g1), abs(g2))
     ok = bool(np.all(np.isfinite(prof)) and np.all(t4 > 0) and gmin > 1e-7 and 0.0 <= alpha <= 1.0)
+    if (not ok and np.all(np.isfinite(prof)) and np.all(t4 > 0) and 0.0 <= alpha <= 1.0 and 1e-10 <= gmin <= 1e-7
+            and g1 > 0 and g2 > 0):
+        # tiny gamma: 1 + (gamma tau/2 - 1) exp(-gamma tau) cancels to ~eps ABSOLUTE, i.e. xi carries an absolute error of a
+        # few eps/gamma; both channels weigh 3 T_irr^4/4 in total, so T^4 is known to E = 3 T_irr^4/4 * 64 eps/gmin and
+        # T = (T^4)^(1/4) to the relative E/(4 T^4), layer by layer (deep layers, where T^4 is large, are judged tightly)
+        e4 = 3.0 * tirr ** 4 / 4.0 * 64.0 * 2.220446049250313e-16 / gmin
+        return prof, 1e-7 + e4 / (4.0 * t4)
     return prof, ((1e-7 + 1e-13 / gmin) if ok else None)
 
 
@@ -628,7 +661,7 @@ def apply_update(c, tp):
             c2[t[0]] = u['value']
         else:
             c2[t[0]][t[1] if isinstance(c2[t[0]], dict) else int(t[1])] = u['value']
-    if c2.get('sub') in ('documented-bounds', 'outside-bounds', 'rejected'):
+    if c2.get('sub') in ('documented-bounds', 'documented-bounds-tiny-gammas', 'outside-bounds', 'rejected'):
         c2['sub'] = 'updated'
     c2['updated'] = True
     return c2
@@ -703,6 +736,9 @@ def judge(ctx, c, small, reuse, given=None):
         exp = npoint_expect(c, P)
         w = float(c['smoothing_window'])
         ctx.bucket('npoint-window:' + ('0-1' if w <= 1 else '1-20' if w <= 20 else '20-60' if w <= 60 else '60-100'))
+        if route == 'direct':
+            ctx.bucket('npoint-nodes-held-as:' + str(c.get('nodes_as') or 'list')
+                       + (':none' if not len(c['temperature_points']) else ''))
         if exp == 'invalid' and out_i != 'invalid':
             ctx.violation('npoint-not-rejected', 'inverted pressure nodes / excessive slope not rejected as an invalid '
                           'model (outcome %s)' % out_i, small)
@@ -749,8 +785,16 @@ def judge(ctx, c, small, reuse, given=None):
         # "the Guillot profile matches its published closed form": the formula (Guillot 2010 eq. 49, Line et al. 2012)
         # evaluated independently for the parameters of the case on the pressure grid of the case
         ref, rtol = guillot_closed_form(P, float(planet.gravity), q)
-        ctx.bucket('guillot-closed-form:' + ('judged' if rtol is not None else 'ill-conditioned(unjudged)'))
-        if rtol is not None and not C.close(prof_i, ref, rel=rtol, abs_=1e-6):
+        per_layer = rtol is not None and np.ndim(rtol) == 1
+        ctx.bucket('guillot-closed-form:' + ('judged-per-layer(tiny gamma)' if per_layer else 'judged' if rtol is not None
+                                             else 'ill-conditioned(unjudged)'))
+        if per_layer:
+            agree = bool(np.all(np.abs(prof_i - ref) <= 1e-6 + rtol * np.maximum(np.abs(prof_i), np.abs(ref))))
+            ctx.bucket('guillot-tiny-gammas:' + ('equal' if q['kappa_v1'] == q['kappa_v2'] else 'different')
+                       + (':thick' if float(q['kappa_irr']) * float(np.max(P)) / float(planet.gravity) > 1e3 else ':thin'))
+        else:
+            agree = rtol is None or C.close(prof_i, ref, rel=rtol, abs_=1e-6)
+        if not agree:
             dev = float(np.nanmax(np.abs(prof_i / ref - 1)))
             ctx.violation(key + '-closed-form', 'the Guillot profile does not match the published closed form for the '
                           'parameters and the pressure grid it was given (max rel. deviation %.3g)' % dev, small,
